@@ -117,7 +117,8 @@ def cases(tier, seed):
             for _ in range(3 if tier == 'quick' else 12):
                 ka = list(rng.choice(grades + [pat.RND(d, 1, rng, max_len=3, min_len=1)[0]]))
                 dens = rng.sample([g for g in grades if g], 2) + [list(pat.RND(d, 1, rng, max_len=3, min_len=1)[0])]
-                out.append(dict(kind='div-history', cfg=cfg, route=route, ka=ka, dens=[list(x) for x in dens]))
+                nums = [list(g) for g in rng.sample([g for g in grades if g], min(2, len([g for g in grades if g])))]
+                out.append(dict(kind='div-history', cfg=cfg, route=route, ka=ka, dens=[list(x) for x in dens], nums=nums))
     if tier == 'thorough':
         for ka in pat.RND(8, 8, rng, max_len=2, min_len=1, order=list(range(256))):
             add('inv', dict(p=5, q=2, r=1), ka)
@@ -159,6 +160,22 @@ def _run_div_history(desc, V):
     else:
         fdiv, finv = (lambda x, y: x / y), (lambda y: y.inv())
     claims = []
+    # several NUMERATOR patterns over one denominator, then the first again (generated division functions are looked up by name)
+    nums = [a] + [mv(alg, V, f'n{j}', kn) for j, kn in enumerate(desc.get('nums', []))]
+    b0 = bs[0]
+    pb0 = MultiVector.fromkeysvalues(plain, tuple(b0.keys()), list(b0.values()))
+    try:
+        winv0 = pb0.inv()
+    except ZeroDivisionError:
+        winv0 = None
+    if winv0 is not None and len(nums) > 1:
+        for rnd in range(2):
+            for j, n_ in enumerate(nums):
+                pn = MultiVector.fromkeysvalues(plain, tuple(n_.keys()), list(n_.values()))
+                try:
+                    claims += mv_eq_claims(f'num{j}/b0#{rnd}', fdiv(n_, b0), coeffs(pn * winv0), fkey=f'div-history|route={route}|numerators')
+                except ZeroDivisionError:
+                    claims.append(Fail(f'zde-num[{j}]', 'division raised ZeroDivisionError on the history algebra but the inverse exists on a fresh one', fkey=f'div-history|route={route}|raise'))
     for rnd in range(2):
         for i, b in enumerate(bs):
             pb = MultiVector.fromkeysvalues(plain, tuple(b.keys()), list(b.values()))
